@@ -109,7 +109,8 @@ def run(ctx):
                 ctx.count("ties_avoided_equal_initial_levels")
                 continue
         try:
-            base = impl_align(fo, series, step)
+            with common.session_logging(rng):
+                base = impl_align(fo, series, step)
             err = None
         except Exception as e:  # noqa
             base, err = None, "%s: %s" % (type(e).__name__, e)
